@@ -40,6 +40,7 @@ theorem tie_aggregator : Gen.BeaconNode.aggregatorPartialSteps = aggregatorParti
     Gen.BeaconNode.aggregatorStoredSteps = aggregatorStoredSteps := ⟨rfl, rfl⟩
 theorem tie_callbackPut : Gen.BeaconNode.callbackPutSteps = callbackPutSteps := rfl
 theorem tie_publicRand : Gen.BeaconNode.publicRandSteps = publicRandSteps := rfl
+theorem tie_bootstrap : Gen.BeaconNode.bootstrapSteps = bootstrapSteps := rfl
 
 /-! ### the digest binds the round (and the previous signature when chained) -/
 
@@ -699,6 +700,18 @@ theorem c01_exact_round (c : Crypto) (chained : Bool) (sigLen : Nat) (addr : Str
         · cases hb
       · next hw => left; cases hb; exact ⟨by omega, rfl⟩
 
+/-- the fourth write path, the in-memory store's start-up fetch: a beacon of round ≥ 1 goes into the (still empty) store
+only if that very beacon verified. (The run theorems above start from a store holding only the genesis beacon — the bolt
+path and a fresh memdb start; a memdb start state with one verified beacon above genesis is covered by this lemma only.) -/
+theorem c01_bootstrap_verified (c : Crypto) (chained : Bool) (key : Nat) (seed : Bytes) (answer b : Beacon)
+    (h : bootstrapPut c chained key seed answer = some b) (hr : 1 ≤ b.round) : verifyBeacon c chained key b = true := by
+  unfold bootstrapPut at h
+  split at h
+  · cases h; simp [genesis] at hr
+  · split at h
+    · cases h
+    · next hv => cases h; simpa using hv
+
 /-- a missing round is an error, never the head or a neighbour -/
 theorem c01_missing_round_is_error (c : Crypto) (s : Node) (proxy : Bool) (wanted : Nat) (hw : 0 < wanted)
     (hne : wanted ≠ s.last.round + 1) (hm : lookup wanted s.stack.base = none) :
@@ -734,6 +747,8 @@ example : ((Node.run toyCrypto (toyStart true) toyEvs).puts.map (fun q => (q.1, 
 example : ((Node.run toyCrypto (toyStart true) toyEvs).served.map (fun x => (x.via, x.wanted, x.b.round, x.randomness.isSome))) =
     [(.proxyGet, 2, 2, true), (.publicRand, 0, 2, false), (.publicStream, 1, 1, true), (.publicStream, 1, 2, true)] := by decide
 example : (publicRand toyCrypto (Node.run toyCrypto (toyStart true) toyEvs) false 9).2 matches .err := by decide
+example : bootstrapPut toyCrypto true 0 [5] ⟨7, [1], [2]⟩ = none ∧
+    bootstrapPut toyCrypto false 0 [5] ⟨2, [0xAA, 0, 0, 0, 0, 0, 0, 0, 2], []⟩ = some ⟨2, [0xAA, 0, 0, 0, 0, 0, 0, 0, 2], []⟩ := by decide
 example : preimage true 1 [5] ≠ preimage true 2 [5] ∧ preimage true 1 [5] ≠ preimage true 1 [6] ∧
     preimage false 1 [5] = preimage false 1 [6] := by decide
 
